@@ -437,6 +437,7 @@ func (e *Engine) runPath(h *ssa.Function, prefix []Decision, sol *Solver, concre
 				ex.require(ex.st.False, "panic", "uncaught panic: "+p.msg)
 			}()
 		case *EngineError:
+			ex.cur, ex.curFr = ex.lastInstr, ex.lastFr
 			engineError = p.Msg + " [in " + ex.fnName() + " at " + ex.pos() + "]"
 			res = nil
 		case *SolverError:
